@@ -4,6 +4,7 @@ use vstd::prelude::*;
 use std::io::{Read, Seek, SeekFrom, Write};
 verus! {
 global size_of usize == 8;
+//@include lib/ext_ioerror.rs
 //@include lib/io_model.rs
 //@include lib/hash_fns.rs
 //@include lib/delta_fns.rs
